@@ -45,13 +45,15 @@ type Script struct {
 	epochFrontier map[int]string
 	nepoch   int
 	strlits  map[string]string
-	oldEq    map[string]string // heap version -> version it agrees with on all objects older than the entry frontier
+	oldEq    map[string]string // heap version -> root version it agrees with on all objects older than the entry frontier
+	steps    map[string]eqStep // heap version -> previous version it agrees with on every object whose rb is below all bounds
+	linfo    []lineInfo
 	sfInfos  map[string]*specFuncInfo
 	errConsts []string
 }
 
 func NewScript() *Script {
-	return &Script{sorts: NewSorts(), declared: map[string]bool{}, tagSort: map[string]string{}, epochPar: map[int][]epochParent{}, epochFrontier: map[int]string{}, oldEq: map[string]string{}, strlits: map[string]string{}}
+	return &Script{sorts: NewSorts(), declared: map[string]bool{}, tagSort: map[string]string{}, epochPar: map[int][]epochParent{}, epochFrontier: map[int]string{}, oldEq: map[string]string{}, steps: map[string]eqStep{}, strlits: map[string]string{}}
 }
 
 func (sc *Script) emit(format string, a ...interface{}) {
@@ -100,6 +102,18 @@ func (sc *Script) strLit(v string) string {
 	sc.emit("(assert (not (= %s emptystr)))", n)
 	sc.strlits[v] = n
 	return n
+}
+
+type eqStep struct {
+	prev   string
+	bounds []string // SMT Int terms: the step changed only objects r with rb(r) >= some bound (or == a listed rb)
+}
+
+// setStep records that version nw agrees with version prev on all objects whose rb is smaller than every bound.
+// All bounds used by the generator are >= the allocation frontier at function entry.
+func (sc *Script) setStep(nw, prev string, bounds ...string) {
+	sc.oldEq[nw] = sc.oldBase(prev)
+	sc.steps[nw] = eqStep{prev: prev, bounds: bounds}
 }
 
 // oldBase: the version that `name` is known to agree with on pre-existing objects (itself if unknown).
@@ -281,7 +295,62 @@ func (sc *Script) merge(name string, edges []edge) *State {
 			}
 		}
 		if sameBase {
-			sc.oldEq[n.mem[t]] = b0
+			// nearest common ancestor of the incoming version chains; the merged version agrees with it below every
+			// bound met on the way from any incoming version down to that ancestor
+			chainOf := func(v string) []string {
+				out := []string{v}
+				for cur := v; ; {
+					stp, ok := sc.steps[cur]
+					if !ok || len(out) > 200 {
+						break
+					}
+					out = append(out, stp.prev)
+					cur = stp.prev
+				}
+				return out
+			}
+			first := chainOf(vals[0])
+			common := ""
+			for _, cand := range first {
+				inAll := true
+				for _, v := range vals[1:] {
+					found := false
+					for _, x := range chainOf(v) {
+						if x == cand {
+							found = true
+							break
+						}
+					}
+					if !found {
+						inAll = false
+						break
+					}
+				}
+				if inAll {
+					common = cand
+					break
+				}
+			}
+			if common != "" && common != n.mem[t] {
+				var bounds []string
+				seenB := map[string]bool{}
+				for _, v := range vals {
+					for cur := v; cur != common; {
+						stp, ok := sc.steps[cur]
+						if !ok {
+							break
+						}
+						for _, bnd := range stp.bounds {
+							if !seenB[bnd] {
+								seenB[bnd] = true
+								bounds = append(bounds, bnd)
+							}
+						}
+						cur = stp.prev
+					}
+				}
+				sc.setStep(n.mem[t], common, bounds...)
+			}
 		}
 	}
 	// locals: only those present in all incoming states survive
